@@ -395,7 +395,8 @@ impl<'tcx> TyGenContext<'_, 'tcx> {
         let first = st.fields.first().unwrap();
 
         match &first.ty {
-            hir::Type::Primitive(..) => true,
+            // Enums and opaque pointers are scalars for the wasm C ABI just like primitives
+            hir::Type::Primitive(..) | hir::Type::Enum(..) | hir::Type::Opaque(..) => true,
             hir::Type::Struct(s) => match s.id() {
                 hir::TypeId::Struct(s) => self.only_primitive(self.tcx.resolve_struct(s)),
                 hir::TypeId::OutStruct(s) => self.only_primitive(self.tcx.resolve_out_struct(s)),
@@ -450,6 +451,8 @@ impl<'tcx> TyGenContext<'_, 'tcx> {
             owns_wrapped_primitive: bool,
             /// How `_fromFFI` turns the scalar it was handed into the wrapped field's value
             wrapped_primitive_value: String,
+            /// The scalar `_intoFFI` hands to wasm when the only field is an enum or an opaque pointer
+            wrapped_scalar_to_c: String,
 
             doc_str: String,
 
@@ -485,6 +488,18 @@ impl<'tcx> TyGenContext<'_, 'tcx> {
                     .formatter
                     .fmt_narrow_returned_scalar(*p, "primitiveValue"),
                 _ => "primitiveValue".into(),
+            },
+            wrapped_scalar_to_c: match struct_def.fields.first() {
+                Some(f) if matches!(f.ty, hir::Type::Enum(..) | hir::Type::Opaque(..)) => self
+                    .gen_js_to_c_for_type(
+                        &f.ty,
+                        format!("this.#{}", self.formatter.fmt_param_name(f.name.as_str())).into(),
+                        None,
+                        None,
+                        JsToCConversionContext::List(ForcePaddingStatus::NoForce),
+                    )
+                    .into(),
+                _ => String::new(),
             },
 
             doc_str: self.formatter.fmt_docs(&struct_def.docs),
